@@ -531,10 +531,12 @@ class JSONGrammar(BaseGrammar):
         # Ensure self.__schema_builder is filled.
         self.schema  # noqa: B018
         state = dict(self.__dict__)
+        # The private attributes are mangled with the name of this class,
+        # also for the instances of its subclasses.
         # The validator will be recreated on demand.
-        del state[f"_{self.__class__.__name__}__validator"]
+        del state[f"_{JSONGrammar.__name__}__validator"]
         # The schema builder cannot be pickled.
-        del state[f"_{self.__class__.__name__}__schema_builder"]
+        del state[f"_{JSONGrammar.__name__}__schema_builder"]
         # The defaults cannot be pickled as is because it also depends on the schema
         # builder. So we convert it into a raw dictionary.
         state["defaults"] = dict(state.pop("_defaults"))
@@ -547,7 +549,5 @@ class JSONGrammar(BaseGrammar):
         # That will create the missing attributes.
         self.clear()
         self.__dict__.update(state)
-        self.__schema_builder.add_schema(
-            state[f"_{self.__class__.__name__}__schema"], True
-        )
+        self.__schema_builder.add_schema(state[f"_{JSONGrammar.__name__}__schema"], True)
         self._defaults.update(cast("StrKeyMapping", state.pop("defaults")))
